@@ -255,7 +255,7 @@ def run(ctx):
     meta = set("".join(s for s, bb in sets)) | {":"}
     # quoter outputs from its MIR constants
     q = c17.quoter_fn(prog)
-    qb = prog.body(q)
+    qb = c17.quoter_body(prog)
     qout = set()
     for (bb, t) in qb.calls():
         if callee_name(t).endswith("String::push"):
